@@ -387,10 +387,10 @@ class AsmLayout:
             lines += ["DUP " + DEF_KINDS[cell["k2"]].replace("$4000", "$4100") + "\n", " RTS\n"]
         elif shape == "undef":
             sig = lambda what: (lambda: "symbols/undef/%s:%s" % (cell["pos"], what)) if native else None
-            lines = [" ORG $3000\n"]
+            lines = ["KON EQU $1234\n", " ORG $3000\n", "LBL NOP\n"]
             if cell["others"]:
                 lines += ["UNDE EQU $10\n", "UNDEFX NOP\n"]
-            lines += [UNDEF_POS[cell["pos"]] + "\n", " RTS\n"]
+            lines += [UNDEF_POS[cell["pos"]] + "\n", "FWD RTS\n"]
         elif shape == "duplicate-label":
             lines = ["A NOP\n", "B NOP\n", "A NOP\n"]
         elif shape == "undefined-symbol":
@@ -419,7 +419,10 @@ DEF_KINDS = {"ins": "LDA #$01", "equ": "EQU $4000", "data": "FCB 1", "rmb": "RMB
 UNDEF_POS = {"ext": " LDA UNDEF", "jmp": " JMP UNDEF", "imm8": " LDA #UNDEF", "imm16": " LDX #UNDEF", "dir": " LDA <UNDEF", "extf": " LDA >UNDEF",
              "idx": " LDA UNDEF,X", "ind": " LDA [UNDEF]", "indidx": " LDA [UNDEF,Y]", "pcr": " LDA UNDEF,PCR", "indpcr": " LDX [UNDEF,PCR]",
              "bra": " BRA UNDEF", "lbra": " LBRA UNDEF", "bsr": " BSR UNDEF", "expr-l": " LDA UNDEF+1", "expr-r": " LDA 1+UNDEF",
-             "fdb": " FDB UNDEF", "fcb": " FCB UNDEF", "equ": "V EQU UNDEF", "rmb": " RMB UNDEF", "org": " ORG UNDEF"}
+             "fdb": " FDB UNDEF", "fcb": " FCB UNDEF", "equ": "V EQU UNDEF", "rmb": " RMB UNDEF", "org": " ORG UNDEF",
+             # an undefined name next to a DEFINED label / EQU constant in a two-term expression
+             "lbl+u": " LDA LBL+UNDEF", "lbl-u": " LDX #LBL-UNDEF", "u+lbl": " JMP UNDEF+LBL", "fwd+u": " STA FWD+UNDEF", "lbl+u,pcr": " LEAX LBL+UNDEF,PCR",
+             "equ+u": " LDX #KON+UNDEF", "u*equ": " LDD #UNDEF*KON", ">lbl+u": " LDA >LBL+UNDEF"}
 
 
 def _split(t):
